@@ -83,12 +83,242 @@ func c30ConstInt(w *an.World, rel, name string) (int64, bool) {
 // ---- path enumeration ----------------------------------------------------------
 
 type c30Path struct {
-	blocks []*ssa.BasicBlock
-	facts  []string
+	blocks    []*ssa.BasicBlock
+	facts     []string
+	uncertain bool // a branch that depends on the scenario could not be evaluated: the path may be infeasible
 }
 
 func (p *c30Path) clone() *c30Path {
-	return &c30Path{blocks: append([]*ssa.BasicBlock{}, p.blocks...), facts: append([]string{}, p.facts...)}
+	return &c30Path{blocks: append([]*ssa.BasicBlock{}, p.blocks...), facts: append([]string{}, p.facts...), uncertain: p.uncertain}
+}
+
+// c30V is a partially known value: k == 0 unknown, 1 boolean, 2 integer,
+// 3 a reference to a designated object (obj).
+type c30V struct {
+	k   int
+	b   bool
+	i   int64
+	obj ssa.Value
+}
+
+// c30Env is what a scenario knows: leaf may supply the value of any
+// (phi-resolved) sub-expression, field the value of a field of a designated
+// object. With w set, calls of in-module functions are evaluated by descending
+// into the callee with its parameters bound to the evaluated arguments.
+type c30Env struct {
+	w     *an.World
+	leaf  func(ssa.Value) (c30V, bool)
+	field func(obj ssa.Value, name string) (c30V, bool)
+	depth int
+}
+
+// eval computes v along the path. leaf may supply the value of any
+// sub-expression (it is asked first, with phis already resolved); constants,
+// negation, comparisons and integer arithmetic are interpreted here.
+func (p *c30Path) eval(v ssa.Value, env *c30Env, depth int) c30V {
+	if depth > 24 || v == nil {
+		return c30V{}
+	}
+	v = p.resolve(v)
+	if v == nil {
+		return c30V{}
+	}
+	if env != nil && env.leaf != nil {
+		if r, ok := env.leaf(v); ok {
+			return r
+		}
+	}
+	leaf := env
+	switch x := v.(type) {
+	case *ssa.Call:
+		if env != nil && env.w != nil {
+			return c30EvalCall(x, p, env)
+		}
+	case *ssa.Const:
+		if x.Value == nil {
+			return c30V{}
+		}
+		switch x.Value.Kind() {
+		case constant.Bool:
+			return c30V{k: 1, b: constant.BoolVal(x.Value)}
+		case constant.Int:
+			if i, ok := constant.Int64Val(x.Value); ok {
+				return c30V{k: 2, i: i}
+			}
+		}
+	case *ssa.UnOp:
+		if x.Op == token.MUL {
+			// a field of a designated object
+			if fa, ok := x.X.(*ssa.FieldAddr); ok && env != nil && env.field != nil {
+				if base := p.eval(fa.X, env, depth+1); base.k == 3 {
+					n := an.FieldName(fa.X.Type(), fa.Field)
+					if r, ok := env.field(base.obj, n[strings.LastIndex(n, ".")+1:]); ok {
+						return r
+					}
+				}
+			}
+			return c30V{}
+		}
+		a := p.eval(x.X, leaf, depth+1)
+		switch {
+		case x.Op == token.NOT && a.k == 1:
+			return c30V{k: 1, b: !a.b}
+		case x.Op == token.SUB && a.k == 2:
+			return c30V{k: 2, i: -a.i}
+		}
+	case *ssa.BinOp:
+		a, b := p.eval(x.X, leaf, depth+1), p.eval(x.Y, leaf, depth+1)
+		switch {
+		case a.k == 2 && b.k == 2:
+			switch x.Op {
+			case token.ADD:
+				return c30V{k: 2, i: a.i + b.i}
+			case token.SUB:
+				return c30V{k: 2, i: a.i - b.i}
+			case token.MUL:
+				return c30V{k: 2, i: a.i * b.i}
+			case token.QUO:
+				if b.i != 0 {
+					return c30V{k: 2, i: a.i / b.i}
+				}
+			case token.REM:
+				if b.i != 0 {
+					return c30V{k: 2, i: a.i % b.i}
+				}
+			}
+			if c30IsCmp(x.Op) {
+				return c30V{k: 1, b: c30EvalRel(a.i, x.Op.String(), b.i)}
+			}
+		case a.k == 1 && b.k == 1:
+			switch x.Op {
+			case token.EQL:
+				return c30V{k: 1, b: a.b == b.b}
+			case token.NEQ:
+				return c30V{k: 1, b: a.b != b.b}
+			case token.AND:
+				return c30V{k: 1, b: a.b && b.b}
+			case token.OR:
+				return c30V{k: 1, b: a.b || b.b}
+			}
+		}
+	}
+	return c30V{}
+}
+
+// c30EvalCall evaluates a call of an in-module function by walking the callee
+// with its parameters bound to the evaluated arguments. The result is known
+// only if every path that is certainly feasible returns the same value and no
+// path is uncertain.
+func c30EvalCall(call *ssa.Call, p *c30Path, env *c30Env) c30V {
+	f := call.Call.StaticCallee()
+	if f == nil || f.Blocks == nil || env.depth >= 3 || !env.w.InModule(f) || len(f.Params) != len(call.Call.Args) {
+		return c30V{}
+	}
+	res := f.Signature.Results()
+	if res.Len() != 1 {
+		return c30V{}
+	}
+	args := map[ssa.Value]c30V{}
+	for i, a := range call.Call.Args {
+		args[f.Params[i]] = p.eval(a, env, 1)
+	}
+	inner := &c30Env{w: env.w, field: env.field, depth: env.depth + 1}
+	inner.leaf = func(v ssa.Value) (c30V, bool) {
+		if a, ok := args[v]; ok {
+			return a, true
+		}
+		return c30V{}, false
+	}
+	var out []c30V
+	uncertain := false
+	ok, _ := c30Walk(f, func(i *ssa.If, q *c30Path) c30Dec {
+		if r := q.eval(i.Cond, inner, 0); r.k == 1 {
+			return c30Dec{t: r.b, f: !r.b}
+		}
+		return c30Dec{t: true, f: true, uncertain: true}
+	}, func(r *ssa.Return, q *c30Path) {
+		if q.uncertain {
+			uncertain = true
+		}
+		out = append(out, q.eval(r.Results[0], inner, 0))
+	})
+	if !ok || uncertain || len(out) == 0 {
+		return c30V{}
+	}
+	for _, o := range out[1:] {
+		if o != out[0] {
+			return c30V{}
+		}
+	}
+	return out[0]
+}
+
+// c30DependsOn: the backward slice of v (through phis, operators and
+// conversions) contains one of the given values.
+func c30DependsOn(v ssa.Value, on map[ssa.Value]bool) bool {
+	seen := map[ssa.Value]bool{}
+	var rec func(v ssa.Value) bool
+	rec = func(v ssa.Value) bool {
+		if v == nil || seen[v] {
+			return false
+		}
+		seen[v] = true
+		if on[v] {
+			return true
+		}
+		switch x := v.(type) {
+		case *ssa.Phi:
+			for _, e := range x.Edges {
+				if rec(e) {
+					return true
+				}
+			}
+			// the branch conditions that select the phi edge
+			for _, pr := range x.Block().Preds {
+				if i, ok := pr.Instrs[len(pr.Instrs)-1].(*ssa.If); ok && rec(i.Cond) {
+					return true
+				}
+			}
+		case *ssa.BinOp:
+			return rec(x.X) || rec(x.Y)
+		case *ssa.UnOp:
+			return rec(x.X)
+		case *ssa.Convert:
+			return rec(x.X)
+		case *ssa.ChangeType:
+			return rec(x.X)
+		case *ssa.Extract:
+			return rec(x.Tuple)
+		case *ssa.Call:
+			for _, a := range x.Call.Args {
+				if rec(a) {
+					return true
+				}
+			}
+		}
+		return false
+	}
+	return rec(v)
+}
+
+// c30IsArith: v is an arithmetic expression (not a call or a load).
+func c30IsArith(v ssa.Value) bool {
+	bo, ok := v.(*ssa.BinOp)
+	if !ok {
+		return false
+	}
+	switch bo.Op {
+	case token.ADD, token.SUB, token.MUL, token.QUO, token.REM, token.SHL, token.SHR:
+		return true
+	}
+	return false
+}
+
+// c30Dec is the answer of a decide callback.
+type c30Dec struct {
+	t, f      bool   // edges to follow
+	tf, ff    string // fact recorded on the true / false edge
+	uncertain bool   // the condition depends on the scenario but could not be evaluated
 }
 
 // resolve follows phis along the path (nil when the incoming edge is ambiguous).
@@ -138,7 +368,7 @@ func (p *c30Path) resolve(v ssa.Value) ssa.Value {
 // answers which edges to follow and which fact to record on each; ret is called
 // at every return. It reports false when the CFG has a cycle on an explored
 // path or too many paths.
-func c30Walk(fn *ssa.Function, decide func(i *ssa.If, p *c30Path) (t, f bool, tFact, fFact string, ok bool), ret func(r *ssa.Return, p *c30Path)) (ok bool, why string) {
+func c30Walk(fn *ssa.Function, decide func(i *ssa.If, p *c30Path) c30Dec, ret func(r *ssa.Return, p *c30Path)) (ok bool, why string) {
 	n := 0
 	ok = true
 	var rec func(b *ssa.BasicBlock, p *c30Path)
@@ -164,22 +394,20 @@ func c30Walk(fn *ssa.Function, decide func(i *ssa.If, p *c30Path) (t, f bool, tF
 		case *ssa.Jump:
 			rec(b.Succs[0], p)
 		case *ssa.If:
-			t, f, tf, ff, dok := decide(x, p)
-			if !dok {
-				ok, why = false, "a branch condition could not be interpreted"
-				return
-			}
-			if t {
+			d := decide(x, p)
+			if d.t {
 				q := p.clone()
-				if tf != "" {
-					q.facts = append(q.facts, tf)
+				q.uncertain = q.uncertain || d.uncertain
+				if d.tf != "" {
+					q.facts = append(q.facts, d.tf)
 				}
 				rec(b.Succs[0], q)
 			}
-			if f {
+			if d.f {
 				q := p.clone()
-				if ff != "" {
-					q.facts = append(q.facts, ff)
+				q.uncertain = q.uncertain || d.uncertain
+				if d.ff != "" {
+					q.facts = append(q.facts, d.ff)
 				}
 				rec(b.Succs[1], q)
 			}
@@ -329,6 +557,36 @@ func c30R1(c *an.Check, getFee, newChain *ssa.Function) {
 	pos := w.Pos(getFee.Pos())
 	// --- the estimator call
 	ests := callsNamed(w, getFee, c30IfEstimate)
+	if len(ests) == 0 {
+		// the estimator may be consulted through a helper that hands its two
+		// results back unchanged
+		for _, call := range an.Calls(getFee) {
+			f := w.Info(call).Static
+			if f == nil || !w.InModule(f) || f.Blocks == nil {
+				continue
+			}
+			inner := callsNamed(w, f, c30IfEstimate)
+			if len(inner) != 1 {
+				continue
+			}
+			pass := true
+			for _, r := range an.Returns(f) {
+				if len(r.Results) != 2 {
+					pass = false
+					continue
+				}
+				for i, res := range r.Results {
+					ex, ok := res.(*ssa.Extract)
+					if !ok || ex.Index != i || ex.Tuple != inner[0].Value() {
+						pass = false
+					}
+				}
+			}
+			if pass {
+				ests = append(ests, call)
+			}
+		}
+	}
 	if len(ests) != 1 {
 		c.Unknown("C30.R1", "GetFee estimator call", pos, fmt.Sprintf("expected exactly one EstimateFeePerKW call in GetFee, found %d", len(ests)))
 		return
@@ -404,51 +662,77 @@ func c30R1(c *an.Check, getFee, newChain *ssa.Function) {
 		oc := oc
 		var bad, unk []string
 		nOK := 0
-		decide := func(i *ssa.If, p *c30Path) (t, f bool, tf, ff string, ok bool) {
-			cond := i.Cond
+		scenVals := map[ssa.Value]bool{errV: true}
+		if rateV != nil {
+			scenVals[rateV] = true
+		}
+		leaf := func(v ssa.Value) (c30V, bool) {
+			if rateV != nil && v == rateV && oc.name == "zero" {
+				return c30V{k: 2, i: 0}, true
+			}
+			bo, isB := v.(*ssa.BinOp)
+			if !isB || (bo.Op != token.EQL && bo.Op != token.NEQ) {
+				return c30V{}, false
+			}
+			return c30V{}, false
+		}
+		decide := func(i *ssa.If, p *c30Path) c30Dec {
+			// scenario-aware evaluation of comparisons against nil / 0
+			var lf func(v ssa.Value) (c30V, bool)
+			lf = func(v ssa.Value) (c30V, bool) {
+				if r, ok := leaf(v); ok {
+					return r, true
+				}
+				bo, isB := v.(*ssa.BinOp)
+				if !isB || (bo.Op != token.EQL && bo.Op != token.NEQ) {
+					return c30V{}, false
+				}
+				x, y := p.resolve(bo.X), p.resolve(bo.Y)
+				if (x == errV && an.IsNilConst(bo.Y)) || (y == errV && an.IsNilConst(bo.X)) {
+					isNil := oc.name != "fails"
+					return c30V{k: 1, b: (bo.Op == token.EQL) == isNil}, true
+				}
+				if oc.name == "rate" && rateV != nil {
+					kx, okx := an.ConstInt(bo.X)
+					ky, oky := an.ConstInt(bo.Y)
+					if (x == rateV && oky && ky == 0) || (y == rateV && okx && kx == 0) {
+						return c30V{k: 1, b: bo.Op == token.NEQ}, true
+					}
+				}
+				return c30V{}, false
+			}
+			if r := p.eval(i.Cond, &c30Env{leaf: lf}, 0); r.k == 1 {
+				return c30Dec{t: r.b, f: !r.b}
+			}
+			// a comparison with the floor: both ways, remembering what holds
+			cond := p.resolve(i.Cond)
 			neg := false
-			for {
+			for cond != nil {
 				u, isU := cond.(*ssa.UnOp)
 				if !isU || u.Op != token.NOT {
 					break
 				}
-				neg, cond = !neg, u.X
+				neg, cond = !neg, p.resolve(u.X)
 			}
-			bo, isB := cond.(*ssa.BinOp)
-			if !isB || !c30IsCmp(bo.Op) {
-				return true, true, "", "", true // unknown condition: both ways
-			}
-			swap := func(t, f bool, tf, ff string) (bool, bool, string, string, bool) {
-				if neg {
-					return f, t, ff, tf, true
+			if bo, isB := cond.(*ssa.BinOp); isB && c30IsCmp(bo.Op) {
+				cx, cy := classify(bo.X, p), classify(bo.Y, p)
+				var d c30Dec
+				switch {
+				case cy == floor && cx != floor:
+					d = c30Dec{t: true, f: true, tf: cx + " " + c30RelOn(bo.Op, true) + " floor", ff: cx + " " + c30RelOn(bo.Op, false) + " floor"}
+				case cx == floor && cy != floor:
+					d = c30Dec{t: true, f: true, tf: cy + " " + c30Flip(c30RelOn(bo.Op, true)) + " floor", ff: cy + " " + c30Flip(c30RelOn(bo.Op, false)) + " floor"}
 				}
-				return t, f, tf, ff, true
-			}
-			x, y := p.resolve(bo.X), p.resolve(bo.Y)
-			// err ? nil
-			if (x == errV && an.IsNilConst(bo.Y)) || (y == errV && an.IsNilConst(bo.X)) {
-				isNil := oc.name != "fails"
-				holds := (bo.Op == token.EQL) == isNil
-				return swap(holds, !holds, "", "")
-			}
-			cx, cy := classify(bo.X, p), classify(bo.Y, p)
-			// est ? 0
-			if (cx == "est" && cy == "const:0") || (cy == "est" && cx == "const:0") {
-				if oc.name == "fails" || (bo.Op != token.EQL && bo.Op != token.NEQ) {
-					return swap(true, true, "", "")
+				if d.t {
+					if neg {
+						d.tf, d.ff = d.ff, d.tf
+					}
+					return d
 				}
-				isZero := oc.name == "zero"
-				holds := (bo.Op == token.EQL) == isZero
-				return swap(holds, !holds, "", "")
 			}
-			// x ? floor
-			if cy == floor && cx != floor {
-				return swap(true, true, cx+" "+c30RelOn(bo.Op, true)+" floor", cx+" "+c30RelOn(bo.Op, false)+" floor")
-			}
-			if cx == floor && cy != floor {
-				return swap(true, true, cy+" "+c30Flip(c30RelOn(bo.Op, true))+" floor", cy+" "+c30Flip(c30RelOn(bo.Op, false))+" floor")
-			}
-			return swap(true, true, "", "")
+			// anything else: both ways; if it depends on the estimator's answer the
+			// explored path may be infeasible under this scenario
+			return c30Dec{t: true, f: true, uncertain: c30DependsOn(i.Cond, scenVals)}
 		}
 		ret := func(r *ssa.Return, p *c30Path) {
 			if len(r.Results) != 2 {
@@ -507,24 +791,47 @@ func c30R1(c *an.Check, getFee, newChain *ssa.Function) {
 				}
 				return false
 			}
+			// a finding on a path that may be infeasible under the scenario is
+			// not a verdict
+			flag := func(msg string) {
+				if p.uncertain {
+					unk = append(unk, msg+" (on a path whose feasibility under this estimator outcome could not be decided)")
+				} else {
+					bad = append(bad, msg)
+				}
+			}
+			known := func(s string) bool { return s == "est" || s == floor || s == fallbk || strings.HasPrefix(s, "const:") }
 			switch {
 			case rc == "max":
 				as := classifyMax(rates[0], p)
-				if len(as) == 2 && ((as[0] == oc.base && as[1] == floor) || (as[1] == oc.base && as[0] == floor)) {
+				switch {
+				case len(as) == 2 && ((as[0] == oc.base && as[1] == floor) || (as[1] == oc.base && as[0] == floor)):
 					nOK++
-				} else {
-					bad = append(bad, fmt.Sprintf("rate is max(%s), expected max(%s, floor)", strings.Join(as, ","), oc.base))
+				case len(as) > 0 && func() bool {
+					for _, a := range as {
+						if !known(a) {
+							return false
+						}
+					}
+					return true
+				}():
+					flag(fmt.Sprintf("rate is max(%s), expected max(%s, floor)", strings.Join(as, ","), oc.base))
+				default:
+					unk = append(unk, fmt.Sprintf("rate is max(%s): an operand is not one of estimate / fallback / floor", strings.Join(as, ",")))
 				}
 			case rc == floor && has("<", "<=", "=="):
 				nOK++
 			case rc == oc.base && has(">=", ">", "=="):
 				nOK++
 			case rc == floor:
-				bad = append(bad, fmt.Sprintf("the floor is used although %s is not known to be below it (path facts: %s)", oc.base, facts))
+				flag(fmt.Sprintf("the floor is used although %s is not known to be below it (path facts: %s)", oc.base, facts))
 			case rc == oc.base:
-				bad = append(bad, fmt.Sprintf("%s is used without being known to be >= the floor (path facts: %s)", oc.base, facts))
+				flag(fmt.Sprintf("%s is used without being known to be >= the floor (path facts: %s)", oc.base, facts))
+			case known(rc) || c30IsArith(p.resolve(rates[0])):
+				// another of the three known quantities, or arithmetic on them
+				flag(fmt.Sprintf("rate is %s, expected max(%s, floor) (path facts: %s)", rc, oc.base, facts))
 			default:
-				bad = append(bad, fmt.Sprintf("rate is %s, expected max(%s, floor) (path facts: %s)", rc, oc.base, facts))
+				unk = append(unk, fmt.Sprintf("the rate factor %s is computed by something this rule does not look into (expected max(%s, floor))", rc, oc.base))
 			}
 		}
 		okW, why := c30Walk(getFee, decide, ret)
@@ -555,9 +862,15 @@ func c30R1(c *an.Check, getFee, newChain *ssa.Function) {
 				continue
 			}
 			nEst++
-			c.Decide(an.EnclosingTop(fn) == getFee, "C30.R1", w.FuncName(fn)+" call EstimateFeePerKW", w.Pos(call.Pos()),
-				"the estimator is consulted only inside GetFee (which clamps)",
-				"an estimator rate is obtained outside GetFee and so bypasses the floor/fallback logic")
+			cons := w.FuncName(fn) + " call EstimateFeePerKW"
+			switch c30OnlyCalledFrom(w, an.EnclosingTop(fn), getFee, 0) {
+			case "yes":
+				c.OK("C30.R1", cons, w.Pos(call.Pos()), "the estimator is consulted only inside GetFee (which clamps) or a helper that only GetFee calls")
+			case "no":
+				c.Bad("C30.R1", cons, w.Pos(call.Pos()), "an estimator rate is obtained outside GetFee and so bypasses the floor/fallback logic")
+			default:
+				c.Unknown("C30.R1", cons, w.Pos(call.Pos()), "cannot establish who calls this function (no static caller found / chain too deep)")
+			}
 		}
 	}
 	c.AtLeast("C30.R1", "EstimateFeePerKW call sites", nEst, 1)
@@ -575,38 +888,81 @@ func c30R1(c *an.Check, getFee, newChain *ssa.Function) {
 			}
 			n++
 			cons := w.FuncName(fn) + " store " + fp.field
+			val := st.Val
+			for {
+				if cv, ok := val.(*ssa.Convert); ok {
+					val = cv.X
+					continue
+				}
+				if ct, ok := val.(*ssa.ChangeType); ok {
+					val = ct.X
+					continue
+				}
+				break
+			}
+			_, isParam := val.(*ssa.Parameter)
+			_, isConst := val.(*ssa.Const)
 			switch {
+			case fn != newChain && c30OnlyCalledFrom(w, an.EnclosingTop(fn), newChain, 0) == "yes":
+				c.Unknown("C30.R1", cons, w.Pos(st.Pos()), "the field is initialised in a helper of NewBitcoinOnChain; the parameter binding is not followed")
 			case fn != newChain:
 				c.Bad("C30.R1", cons, w.Pos(st.Pos()), "the field is written outside NewBitcoinOnChain: the rate GetFee clamps against is no longer the wired one")
-			case fp.param >= len(fn.Params) || st.Val != fn.Params[fp.param]:
+			case fp.param < len(fn.Params) && val == ssa.Value(fn.Params[fp.param]):
+				c.OK("C30.R1", cons, w.Pos(st.Pos()), fmt.Sprintf("initialised from constructor parameter #%d", fp.param))
+			case isParam || isConst:
 				c.Bad("C30.R1", cons, w.Pos(st.Pos()), fmt.Sprintf("the field is initialised from %s, not from constructor parameter #%d", w.Term(st.Val), fp.param))
 			default:
-				c.OK("C30.R1", cons, w.Pos(st.Pos()), fmt.Sprintf("initialised from constructor parameter #%d", fp.param))
+				c.Unknown("C30.R1", cons, w.Pos(st.Pos()), fmt.Sprintf("the field is initialised from %s; cannot relate it to constructor parameter #%d", w.Term(st.Val), fp.param))
 			}
 		}
 		c.AtLeast("C30.R1", "writers of "+fp.field, n, 1)
 	}
 
 	// --- fee arguments of the spend builder
-	fromGetFee := func(v ssa.Value) (bool, []string) {
+	// feeSource: "ok" (only GetFee results, and constants 0 when zeroOK), "bad"
+	// (some source is positively something else: a non-zero constant or the
+	// result of another function), "unknown" (a source this rule cannot follow).
+	feeSource := func(v ssa.Value, zeroOK bool) (string, []string) {
 		ss := w.Sources(v, an.FlowOpts{IntoCallees: true, StopAt: map[string]bool{c30FnGetFee: true}})
-		good := ss.OnlyFrom(func(s an.Src) bool {
-			return (s.Kind == "call" && s.Name == c30FnGetFee+"#0") || (s.Kind == "const" && s.Name == "0")
-		})
-		return good, ss.Names()
+		verdict := "ok"
+		if len(ss.Leaves) == 0 {
+			verdict = "unknown"
+		}
+		for _, l := range ss.Leaves {
+			switch {
+			case l.Kind == "call" && l.Name == c30FnGetFee+"#0":
+			case l.Kind == "const" && l.Name == "0" && zeroOK:
+			case l.Kind == "const", l.Kind == "call" && strings.HasPrefix(l.Name, "func:"):
+				verdict = "bad"
+			default:
+				if verdict == "ok" {
+					verdict = "unknown"
+				}
+			}
+		}
+		return verdict, ss.Names()
+	}
+	feeDecide := func(cons, pos string, v ssa.Value, zeroOK bool, okText, badText string) {
+		switch verdict, names := feeSource(v, zeroOK); verdict {
+		case "ok":
+			c.OK("C30.R1", cons, pos, okText)
+		case "bad":
+			c.Bad("C30.R1", cons, pos, fmt.Sprintf(badText, names))
+		default:
+			c.Unknown("C30.R1", cons, pos, fmt.Sprintf("cannot follow the fee back to BitcoinOnChain.GetFee (sources %v)", names))
+		}
 	}
 	preps := findCallSites(w, c30FnPrepare)
-	c.AtLeast("C30.R1", "PrepareSpendingTransaction call sites", len(preps), 6)
+	c.AtLeast("C30.R1", "PrepareSpendingTransaction uses (call sites, a shared helper counted once per caller)", c30Instances(w, preps), 6)
 	for _, p := range preps {
 		args := p.Common().Args
 		if len(args) != 7 {
 			c.Unknown("C30.R1", w.FuncName(p.Parent())+" PrepareSpendingTransaction fee argument", w.Pos(p.Pos()), "unexpected arity")
 			continue
 		}
-		good, names := fromGetFee(args[6])
-		c.Decide(good, "C30.R1", w.FuncName(p.Parent())+" PrepareSpendingTransaction fee argument", w.Pos(p.Pos()),
+		feeDecide(w.FuncName(p.Parent())+" PrepareSpendingTransaction fee argument", w.Pos(p.Pos()), args[6], true,
 			"prepared fee is 0 (GetFee is called inside) or a GetFee result",
-			fmt.Sprintf("the fee of a spending transaction comes from %v, not from BitcoinOnChain.GetFee: the floor does not apply", names))
+			"the fee of a spending transaction comes from %v, not from BitcoinOnChain.GetFee: the floor does not apply")
 	}
 	if prep := w.Func("onchain", "(*BitcoinOnChain).PrepareSpendingTransaction"); prep == nil || len(prep.Params) != 7 {
 		c.Anchor("onchain.(*BitcoinOnChain).PrepareSpendingTransaction does not resolve with 7 parameters")
@@ -618,21 +974,14 @@ func c30R1(c *an.Check, getFee, newChain *ssa.Function) {
 				switch x := r.(type) {
 				case *ssa.Phi:
 					nPhi++
-					good := true
-					var names []string
 					for _, e := range x.Edges {
-						if e == pf {
+						if e == ssa.Value(pf) {
 							continue
 						}
-						g, nn := fromGetFee(e)
-						if !g || len(nn) != 1 || nn[0] == "const:0" {
-							good = false
-						}
-						names = append(names, nn...)
+						feeDecide("PrepareSpendingTransaction fee when none is prepared", w.Pos(x.Pos()), e, false,
+							"without a prepared fee the spend pays a GetFee result",
+							"without a prepared fee the spend pays %v instead of a GetFee result")
 					}
-					c.Decide(good, "C30.R1", "PrepareSpendingTransaction fee when none is prepared", w.Pos(x.Pos()),
-						"without a prepared fee the spend pays a GetFee result",
-						fmt.Sprintf("without a prepared fee the spend pays %v instead of a GetFee result", names))
 				case *ssa.BinOp:
 					if !c30IsCmp(x.Op) {
 						c.Unknown("C30.R1", "PrepareSpendingTransaction fee when none is prepared", w.Pos(x.Pos()), "the prepared fee is used in arithmetic directly")
@@ -687,21 +1036,77 @@ func c30R1(c *an.Check, getFee, newChain *ssa.Function) {
 					c.Unknown("C30.R1", cons, "-", "method not found")
 					continue
 				}
-				good := true
-				var names []string
 				for _, r := range an.Returns(m) {
-					ss := w.Sources(r.Results[0], an.FlowOpts{IntoCallees: true, StopAt: map[string]bool{c30FnGetFee: true}})
-					if !ss.OnlyFrom(func(s an.Src) bool { return s.Kind == "call" && s.Name == c30FnGetFee+"#0" }) {
-						good = false
-					}
-					names = append(names, ss.Names()...)
+					feeDecide(cons, w.Pos(m.Pos()), r.Results[0], false, "the Bitcoin wallet adapter reports a GetFee result",
+						"the Bitcoin wallet adapter reports a fee from %v, not from BitcoinOnChain.GetFee")
 				}
-				c.Decide(good, "C30.R1", cons, w.Pos(m.Pos()), "the Bitcoin wallet adapter reports a GetFee result",
-					fmt.Sprintf("the Bitcoin wallet adapter reports a fee from %v, not from BitcoinOnChain.GetFee", names))
 			}
 		}
 	}
 	c.AtLeast("C30.R1", "Bitcoin wallet adapters (swap.Wallet implementations holding a *BitcoinOnChain)", nAd, 2)
+}
+
+// c30OnlyCalledFrom: every production path of static calls into fn starts in
+// root ("yes"), some caller is another function ("no"), or it cannot be told
+// ("unknown": no static caller, e.g. called through an interface, or too deep).
+func c30OnlyCalledFrom(w *an.World, fn, root *ssa.Function, depth int) string {
+	if fn == root {
+		return "yes"
+	}
+	if c30IsAPI(fn) {
+		return "no" // another entry point of the package
+	}
+	if depth > 3 {
+		return "unknown"
+	}
+	n := 0
+	res := "yes"
+	for _, g := range prodFuncs(w) {
+		for _, call := range an.Calls(g) {
+			if w.Info(call).Static != fn {
+				continue
+			}
+			n++
+			switch c30OnlyCalledFrom(w, an.EnclosingTop(g), root, depth+1) {
+			case "no":
+				return "no"
+			case "unknown":
+				res = "unknown"
+			}
+		}
+	}
+	if n == 0 {
+		// an exported function or method without static callers is reachable by
+		// other means: not provably confined to root
+		if fn.Object() != nil && fn.Object().Exported() {
+			return "no"
+		}
+		return "unknown"
+	}
+	return res
+}
+
+// c30Instances counts uses: a call site inside a helper that has static
+// production callers counts once per caller (so that folding repeated code into
+// one helper does not reduce the count).
+func c30Instances(w *an.World, sites []ssa.CallInstruction) int {
+	n := 0
+	for _, s := range sites {
+		fn := an.EnclosingTop(s.Parent())
+		k := 0
+		for _, g := range prodFuncs(w) {
+			for _, call := range an.Calls(g) {
+				if w.Info(call).Static == fn {
+					k++
+				}
+			}
+		}
+		if k < 1 {
+			k = 1
+		}
+		n += k
+	}
+	return n
 }
 
 func c30SortedRels(w *an.World) []string {
@@ -721,19 +1126,27 @@ func c30R2(c *an.Check, fn *ssa.Function, legacy, modern int64) {
 	c.Decide(legacy == 253 && modern == 25, "C30.R2", "fee floor constants", pos, "LegacyFeeFloorSatPerKw = 253, ModernFeeFloorSatPerKw = 25",
 		fmt.Sprintf("LegacyFeeFloorSatPerKw = %d, ModernFeeFloorSatPerKw = %d; the protocol floors are 253 and 25 sat/kw", legacy, modern))
 
-	// the parsed version value
+	// the parsed version value: the in-module call whose result is a pointer to
+	// a struct with integer fields major and minor (identified by shape, not by
+	// the helper's name)
 	var parsed *ssa.Call
 	for _, call := range an.Calls(fn) {
-		if cc, ok := call.(*ssa.Call); ok && w.Info(call).Name == "func:onchain.normalizeBitcoinVersion" {
-			if parsed != nil {
-				c.Unknown("C30.R2", "DetermineFeeFloor table", pos, "more than one normalizeBitcoinVersion call")
-				return
-			}
-			parsed = cc
+		cc, ok := call.(*ssa.Call)
+		if !ok {
+			continue
 		}
+		ci := w.Info(call)
+		if ci.Static == nil || !w.InModule(ci.Static) || !c30IsVersionStruct(cc.Type()) {
+			continue
+		}
+		if parsed != nil {
+			c.Unknown("C30.R2", "DetermineFeeFloor table", pos, "more than one call yields a parsed version")
+			return
+		}
+		parsed = cc
 	}
 	if parsed == nil {
-		c.Unknown("C30.R2", "DetermineFeeFloor table", pos, "DetermineFeeFloor does not call normalizeBitcoinVersion; the version fields cannot be located")
+		c.Unknown("C30.R2", "DetermineFeeFloor table", pos, "DetermineFeeFloor does not obtain a parsed version (pointer to a struct with integer fields major/minor) from an in-module call; the version fields cannot be located")
 		return
 	}
 	fieldOf := func(v ssa.Value) string {
@@ -742,10 +1155,11 @@ func c30R2(c *an.Check, fn *ssa.Function, legacy, modern int64) {
 			return ""
 		}
 		fa, ok := u.X.(*ssa.FieldAddr)
-		if !ok || fa.X != parsed {
+		if !ok || fa.X != ssa.Value(parsed) {
 			return ""
 		}
-		return an.FieldName(fa.X.Type(), fa.Field)
+		n := an.FieldName(fa.X.Type(), fa.Field)
+		return n[strings.LastIndex(n, ".")+1:]
 	}
 	// grid: every compared constant and its neighbours
 	gm := map[int64]bool{0: true, 1: true, 28: true, 29: true, 30: true, 31: true, 100: true}
@@ -762,11 +1176,24 @@ func c30R2(c *an.Check, fn *ssa.Function, legacy, modern int64) {
 					continue
 				}
 				switch fieldOf(pair[0]) {
-				case "bitcoinVersion.major":
+				case "major":
 					gm[k-1], gm[k], gm[k+1] = true, true, true
-				case "bitcoinVersion.minor":
+				case "minor":
 					gn[k-1], gn[k], gn[k+1] = true, true, true
 				}
+			}
+		}
+	}
+	// constants handed to in-module helpers (e.g. version.atLeast(29, 2)) may be
+	// compared with either component
+	for _, call := range an.Calls(fn) {
+		if f := call.Common().StaticCallee(); f == nil || !w.InModule(f) {
+			continue
+		}
+		for _, a := range call.Common().Args {
+			if k, isK := an.ConstInt(a); isK && c30IsInt(a.Type()) && k >= 0 && k < 1000 {
+				gm[k-1], gm[k], gm[k+1] = true, true, true
+				gn[k-1], gn[k], gn[k+1] = true, true, true
 			}
 		}
 	}
@@ -782,73 +1209,91 @@ func c30R2(c *an.Check, fn *ssa.Function, legacy, modern int64) {
 			}
 		}
 	}
-	run := func(p pt) (got []int64, ok bool, why string) {
-		decide := func(i *ssa.If, _ *c30Path) (t, f bool, tf, ff string, ok bool) {
-			cond := i.Cond
-			neg := false
-			for {
-				u, isU := cond.(*ssa.UnOp)
-				if !isU || u.Op != token.NOT {
-					break
+	// run evaluates the function on one point. Each outcome is the returned
+	// constant (-1 when it cannot be resolved) and whether the path crossed a
+	// branch that could not be evaluated.
+	type outcome struct {
+		val       int64
+		uncertain bool
+	}
+	run := func(pt pt) (got []outcome, ok bool, why string) {
+		env := &c30Env{w: w}
+		env.leaf = func(v ssa.Value) (c30V, bool) {
+			if bo, isB := v.(*ssa.BinOp); isB && (bo.Op == token.EQL || bo.Op == token.NEQ) {
+				if (bo.X == ssa.Value(parsed) && an.IsNilConst(bo.Y)) || (bo.Y == ssa.Value(parsed) && an.IsNilConst(bo.X)) {
+					return c30V{k: 1, b: (bo.Op == token.EQL) == pt.nilV}, true
 				}
-				neg, cond = !neg, u.X
 			}
-			bo, isB := cond.(*ssa.BinOp)
-			if !isB || !c30IsCmp(bo.Op) {
-				return false, false, "", "", false
-			}
-			var holds bool
-			switch {
-			case (bo.X == ssa.Value(parsed) && an.IsNilConst(bo.Y)) || (bo.Y == ssa.Value(parsed) && an.IsNilConst(bo.X)):
-				holds = (bo.Op == token.EQL) == p.nilV
-			default:
-				val := func(v ssa.Value) (int64, bool) {
-					if k, ok := an.ConstInt(v); ok {
-						return k, true
-					}
-					if p.nilV {
-						return 0, false
-					}
-					switch fieldOf(v) {
-					case "bitcoinVersion.major":
-						return p.major, true
-					case "bitcoinVersion.minor":
-						return p.minor, true
-					}
-					return 0, false
+			if v == ssa.Value(parsed) {
+				if pt.nilV {
+					return c30V{}, true
 				}
-				a, ok1 := val(bo.X)
-				b, ok2 := val(bo.Y)
-				if !ok1 || !ok2 {
-					return false, false, "", "", false
-				}
-				holds = c30EvalRel(a, bo.Op.String(), b)
+				return c30V{k: 3, obj: parsed}, true
 			}
-			if neg {
-				holds = !holds
-			}
-			return holds, !holds, "", "", true
+			return c30V{}, false
 		}
-		ret := func(r *ssa.Return, _ *c30Path) {
-			if k, isK := an.ConstInt(r.Results[0]); isK {
-				got = append(got, k)
-			} else {
-				got = append(got, -1)
+		env.field = func(obj ssa.Value, name string) (c30V, bool) {
+			if obj != ssa.Value(parsed) || pt.nilV {
+				return c30V{}, false
 			}
+			switch name {
+			case "major":
+				return c30V{k: 2, i: pt.major}, true
+			case "minor":
+				return c30V{k: 2, i: pt.minor}, true
+			}
+			return c30V{}, false
+		}
+		decide := func(i *ssa.If, p *c30Path) c30Dec {
+			if r := p.eval(i.Cond, env, 0); r.k == 1 {
+				return c30Dec{t: r.b, f: !r.b}
+			}
+			return c30Dec{t: true, f: true, uncertain: true}
+		}
+		ret := func(r *ssa.Return, p *c30Path) {
+			o := outcome{val: -1, uncertain: p.uncertain}
+			if rv := p.eval(r.Results[0], env, 0); rv.k == 2 {
+				o.val = rv.i
+			}
+			got = append(got, o)
 		}
 		ok, why = c30Walk(fn, decide, ret)
 		return
 	}
+	// judge: "ok", "bad" (a certain path returns a wrong constant), "unknown"
+	judge := func(got []outcome, want int64) (string, []int64) {
+		verdict := "ok"
+		var vals []int64
+		if len(got) == 0 {
+			return "unknown", nil
+		}
+		for _, o := range got {
+			vals = append(vals, o.val)
+			switch {
+			case o.val == want:
+			case o.val >= 0 && !o.uncertain:
+				return "bad", vals
+			default:
+				verdict = "unknown"
+			}
+		}
+		return verdict, vals
+	}
 	// unparsable
 	got, okW, why := run(pt{nilV: true})
-	switch {
-	case !okW:
+	if !okW {
 		c.Unknown("C30.R2", "DetermineFeeFloor(unparsable)", pos, "cannot evaluate: "+why)
-	default:
-		c.Decide(len(got) == 1 && got[0] == 253, "C30.R2", "DetermineFeeFloor(unparsable)", pos, "an unparsable version string yields 253",
-			fmt.Sprintf("an unparsable version string yields %v, expected the legacy floor 253", got))
+	} else {
+		switch v, vals := judge(got, 253); v {
+		case "ok":
+			c.OK("C30.R2", "DetermineFeeFloor(unparsable)", pos, "an unparsable version string yields 253")
+		case "bad":
+			c.Bad("C30.R2", "DetermineFeeFloor(unparsable)", pos, fmt.Sprintf("an unparsable version string yields %v, expected the legacy floor 253", vals))
+		default:
+			c.Unknown("C30.R2", "DetermineFeeFloor(unparsable)", pos, fmt.Sprintf("the result for an unparsable version string could not be determined (%v; -1 = not a constant)", vals))
+		}
 	}
-	var wrong []string
+	var wrong, undecided []string
 	unknown := ""
 	for _, p := range pts {
 		got, okW, why := run(p)
@@ -860,25 +1305,49 @@ func c30R2(c *an.Check, fn *ssa.Function, legacy, modern int64) {
 		if p.major > 29 || (p.major == 29 && p.minor >= 2) {
 			want = 25
 		}
-		if len(got) != 1 || got[0] != want {
-			wrong = append(wrong, fmt.Sprintf("%d.%d -> %v (expected %d)", p.major, p.minor, got, want))
+		switch v, vals := judge(got, want); v {
+		case "bad":
+			wrong = append(wrong, fmt.Sprintf("%d.%d -> %v (expected %d)", p.major, p.minor, vals, want))
+		case "unknown":
+			undecided = append(undecided, fmt.Sprintf("%d.%d -> %v", p.major, p.minor, vals))
 		}
 	}
 	switch {
 	case unknown != "":
-		c.Unknown("C30.R2", "DetermineFeeFloor table", pos, "cannot evaluate DetermineFeeFloor: "+unknown+" (only comparisons of version.major/minor with constants are interpreted)")
+		c.Unknown("C30.R2", "DetermineFeeFloor table", pos, "cannot evaluate DetermineFeeFloor: "+unknown)
 	case len(wrong) > 0:
 		if len(wrong) > 8 {
 			wrong = append(wrong[:8], fmt.Sprintf("… %d more", len(wrong)-8))
 		}
 		c.Bad("C30.R2", "DetermineFeeFloor table", pos, "the floor table deviates from `25 iff version >= 29.2, else 253`: "+strings.Join(wrong, "; "))
+	case len(undecided) > 0:
+		c.Unknown("C30.R2", "DetermineFeeFloor table", pos, "some results depend on conditions other than comparisons of version.major/minor with constants: "+undecided[0])
 	default:
 		c.OK("C30.R2", "DetermineFeeFloor table", pos, fmt.Sprintf("%d (major,minor) points incl. every compared constant ±1 agree with `25 iff >= 29.2 else 253`", len(pts)))
 	}
 	c.AtLeast("C30.R2", "grid points", len(pts), 42)
 
 	// --- which submatch feeds which field
-	c30R2Parse(c)
+	c30R2Parse(c, parsed.Call.StaticCallee())
+}
+
+// c30IsVersionStruct: pointer to a named struct with integer fields major and minor.
+func c30IsVersionStruct(t types.Type) bool {
+	p, ok := t.Underlying().(*types.Pointer)
+	if !ok {
+		return false
+	}
+	st, ok := p.Elem().Underlying().(*types.Struct)
+	if !ok {
+		return false
+	}
+	n := 0
+	for i := 0; i < st.NumFields(); i++ {
+		if f := st.Field(i); (f.Name() == "major" || f.Name() == "minor") && c30IsInt(f.Type()) {
+			n++
+		}
+	}
+	return n == 2
 }
 
 func c30Keys(m map[int64]bool) []int64 {
@@ -890,12 +1359,10 @@ func c30Keys(m map[int64]bool) []int64 {
 	return out
 }
 
-func c30R2Parse(c *an.Check) {
+func c30R2Parse(c *an.Check, norm *ssa.Function) {
 	w := c.W
-	norm := w.Func("onchain", "normalizeBitcoinVersion")
-	seg := w.Func("onchain", "parseVersionSegment")
-	if norm == nil || seg == nil {
-		c.Unknown("C30.R2", "version parse wiring", "-", "normalizeBitcoinVersion / parseVersionSegment do not resolve; the parse is not checked")
+	if norm == nil || norm.Blocks == nil {
+		c.Unknown("C30.R2", "version parse wiring", "-", "the version parser has no body; the parse is not checked")
 		return
 	}
 	pos := w.Pos(norm.Pos())
@@ -907,10 +1374,14 @@ func c30R2Parse(c *an.Check) {
 		}
 	}
 	if sub == nil {
-		c.Unknown("C30.R2", "version parse wiring", pos, "no FindStringSubmatch call")
+		c.Unknown("C30.R2", "version parse wiring", pos, "no FindStringSubmatch call in "+norm.Name())
 		return
 	}
-	// the index of the submatch that a value is parsed from: Atoi(m[k]) or parseVersionSegment(m, k)
+	// segment helpers met on the way: callee -> (index of the submatch slice
+	// argument, index of the group argument)
+	type segUse struct{ si, ki int }
+	segs := map[*ssa.Function]segUse{}
+	// the index of the submatch that a value is parsed from: Atoi(m[k]) or helper(m, k)
 	groupOf := func(v ssa.Value) (int64, bool) {
 		for {
 			if cv, ok := v.(*ssa.Convert); ok {
@@ -932,8 +1403,8 @@ func c30R2Parse(c *an.Check) {
 		if call == nil {
 			return 0, false
 		}
-		switch w.Info(call).Name {
-		case "func:strconv.Atoi":
+		ci := w.Info(call)
+		if ci.Name == "func:strconv.Atoi" {
 			u, ok := call.Call.Args[0].(*ssa.UnOp)
 			if !ok || u.Op != token.MUL {
 				return 0, false
@@ -943,11 +1414,21 @@ func c30R2Parse(c *an.Check) {
 				return 0, false
 			}
 			return an.ConstInt(ia.Index)
-		case "func:onchain.parseVersionSegment":
-			if call.Call.Args[0] != ssa.Value(sub) {
-				return 0, false
+		}
+		if ci.Static != nil && w.InModule(ci.Static) && ci.Static.Blocks != nil {
+			si, ki := -1, -1
+			var k int64
+			for i, a := range call.Call.Args {
+				if a == ssa.Value(sub) {
+					si = i
+				} else if kv, isK := an.ConstInt(a); isK && c30IsInt(a.Type()) {
+					ki, k = i, kv
+				}
 			}
-			return an.ConstInt(call.Call.Args[1])
+			if si >= 0 && ki >= 0 {
+				segs[ci.Static] = segUse{si, ki}
+				return k, true
+			}
 		}
 		return 0, false
 	}
@@ -956,14 +1437,14 @@ func c30R2Parse(c *an.Check) {
 	for _, b := range norm.Blocks {
 		for _, in := range b.Instrs {
 			al, ok := in.(*ssa.Alloc)
-			if !ok || an.NamedOf(al.Type()) == nil || an.NamedOf(al.Type()).Obj().Name() != "bitcoinVersion" {
+			if !ok || !c30IsVersionStruct(al.Type()) {
 				continue
 			}
 			for _, f := range []string{"major", "minor"} {
 				v, has := an.CompositeFieldValue(al, f)
-				cons := "normalizeBitcoinVersion " + f
+				cons := norm.Name() + " " + f
 				if !has {
-					c.Bad("C30.R2", cons, w.Pos(al.Pos()), "the field is never set")
+					c.Bad("C30.R2", cons, w.Pos(al.Pos()), "the field is never set: it stays 0 for every version")
 					continue
 				}
 				found++
@@ -978,60 +1459,79 @@ func c30R2Parse(c *an.Check) {
 			}
 		}
 	}
-	c.AtLeast("C30.R2", "bitcoinVersion fields set by normalizeBitcoinVersion", found, 2)
-	// parseVersionSegment(m, i) = Atoi(m[i]) or 0
-	segOK := true
-	var segNames []string
-	for _, r := range an.Returns(seg) {
-		ss := w.Sources(r.Results[0], an.FlowOpts{})
-		segNames = append(segNames, ss.Names()...)
-		for _, l := range ss.Leaves {
-			switch {
-			case l.Kind == "const" && l.Name == "0":
-			case l.Kind == "call" && l.Name == "func:strconv.Atoi#0":
-				u, ok := l.Call.Call.Args[0].(*ssa.UnOp)
-				ia, ok2 := (ssa.Value)(nil), false
-				if ok && u.Op == token.MUL {
-					if x, isIA := u.X.(*ssa.IndexAddr); isIA {
-						ia, ok2 = x, true
-						if x.X != seg.Params[0] || x.Index != seg.Params[1] {
-							segOK = false
+	c.AtLeast("C30.R2", "version fields set by the parser", found, 2)
+	// helper(m, i) = Atoi(m[i]) or 0
+	var segFns []*ssa.Function
+	for f := range segs {
+		segFns = append(segFns, f)
+	}
+	sort.Slice(segFns, func(i, j int) bool { return segFns[i].Name() < segFns[j].Name() })
+	for _, seg := range segFns {
+		use := segs[seg]
+		verdict := "ok"
+		var segNames []string
+		for _, r := range an.Returns(seg) {
+			ss := w.Sources(r.Results[0], an.FlowOpts{})
+			segNames = append(segNames, ss.Names()...)
+			for _, l := range ss.Leaves {
+				switch {
+				case l.Kind == "const" && l.Name == "0":
+				case l.Kind == "call" && l.Name == "func:strconv.Atoi#0":
+					var ia *ssa.IndexAddr
+					if u, ok := l.Call.Call.Args[0].(*ssa.UnOp); ok && u.Op == token.MUL {
+						ia, _ = u.X.(*ssa.IndexAddr)
+					}
+					switch {
+					case ia == nil || use.si >= len(seg.Params) || use.ki >= len(seg.Params):
+						if verdict == "ok" {
+							verdict = "unknown"
 						}
+					case ia.X != ssa.Value(seg.Params[use.si]):
+						if verdict == "ok" {
+							verdict = "unknown"
+						}
+					case ia.Index != ssa.Value(seg.Params[use.ki]):
+						verdict = "bad" // a number is parsed from another position than the requested group
+					}
+				default:
+					if verdict == "ok" {
+						verdict = "unknown"
 					}
 				}
-				if !ok2 || ia == nil {
-					segOK = false
-				}
-			default:
-				segOK = false
 			}
 		}
+		switch verdict {
+		case "ok":
+			c.OK("C30.R2", seg.Name(), w.Pos(seg.Pos()), "returns Atoi(matches[idx]) or 0")
+		case "bad":
+			c.Bad("C30.R2", seg.Name(), w.Pos(seg.Pos()), fmt.Sprintf("%s parses a number from another element than matches[idx] (sources %v)", seg.Name(), segNames))
+		default:
+			c.Unknown("C30.R2", seg.Name(), w.Pos(seg.Pos()), fmt.Sprintf("cannot establish that %s returns Atoi(matches[idx]) or 0 (sources %v)", seg.Name(), segNames))
+		}
 	}
-	c.Decide(segOK, "C30.R2", "parseVersionSegment", w.Pos(seg.Pos()), "returns Atoi(matches[idx]) or 0",
-		fmt.Sprintf("parseVersionSegment does not return Atoi(matches[idx]) or 0 (sources %v)", segNames))
 
 	// the pattern constant, evaluated on sample subversion strings
 	pat := ""
 	nPat := 0
-	if g, ok := w.SSA["onchain"].Members["bitcoinVersionPattern"].(*ssa.Global); ok {
-		if l, isL := sub.Call.Args[0].(*ssa.UnOp); !isL || l.X != ssa.Value(g) {
-			c.Unknown("C30.R2", "version pattern", pos, "FindStringSubmatch is not called on the package-level pattern")
-			return
+	patOf := func(v ssa.Value) {
+		if cc, ok := v.(*ssa.Call); ok && w.Info(cc).Name == "func:regexp.MustCompile" {
+			if s, ok := an.ConstString(cc.Call.Args[0]); ok {
+				pat = s
+				nPat++
+			}
 		}
-		if g.Referrers() == nil {
-			// globals have no referrer lists: scan the package initialiser
-		}
-		if ini := w.SSA["onchain"].Func("init"); ini != nil {
-			for _, b := range ini.Blocks {
-				for _, in := range b.Instrs {
-					st, ok := in.(*ssa.Store)
-					if !ok || st.Addr != ssa.Value(g) {
-						continue
-					}
-					if cc, ok := st.Val.(*ssa.Call); ok && w.Info(cc).Name == "func:regexp.MustCompile" {
-						if s, ok := an.ConstString(cc.Call.Args[0]); ok {
-							pat = s
-							nPat++
+	}
+	switch rv := sub.Call.Args[0].(type) {
+	case *ssa.Call:
+		patOf(rv) // compiled in place
+	case *ssa.UnOp:
+		// a package-level pattern (whatever its name): its initialiser
+		if g, ok := rv.X.(*ssa.Global); ok && rv.Op == token.MUL && g.Pkg != nil {
+			if ini := g.Pkg.Func("init"); ini != nil {
+				for _, b := range ini.Blocks {
+					for _, in := range b.Instrs {
+						if st, ok := in.(*ssa.Store); ok && st.Addr == ssa.Value(g) {
+							patOf(st.Val)
 						}
 					}
 				}
@@ -1039,7 +1539,7 @@ func c30R2Parse(c *an.Check) {
 		}
 	}
 	if nPat != 1 {
-		c.Unknown("C30.R2", "version pattern", pos, "bitcoinVersionPattern is not initialised by exactly one regexp.MustCompile(<constant>)")
+		c.Unknown("C30.R2", "version pattern", pos, "the regular expression used by "+norm.Name()+" is not one regexp.MustCompile(<constant>) (in place or as a package-level variable)")
 		return
 	}
 	re, err := regexp.Compile(pat)
@@ -1073,32 +1573,33 @@ func c30R2Parse(c *an.Check) {
 
 func c30R3(c *an.Check, legacy int64) {
 	w := c.W
-	opts := an.FlowOpts{IntoCallees: true, StopAt: map[string]bool{c30FnFloor: true}}
+	opts := an.FlowOpts{IntoCallees: true, IntoCallers: true, StopAt: map[string]bool{c30FnFloor: true}}
 	check := func(site ssa.CallInstruction, what string, arg ssa.Value, needDetected bool) {
 		fn := site.Parent()
 		cons := w.FuncName(fn) + " " + what
 		ss := w.Sources(arg, opts)
 		detected := ss.Has("call", c30FnFloor+"#0")
-		good := len(ss.Leaves) > 0
-		var low []string
+		var low, other []string
+		allConst := len(ss.Leaves) > 0
 		for _, l := range ss.Leaves {
 			switch {
 			case l.Kind == "call" && l.Name == c30FnFloor+"#0":
+				allConst = false
 			case l.Kind == "const":
-				k, ok := an.ConstInt(l.Val)
-				if !ok || k < legacy {
-					good = false
+				if k, ok := an.ConstInt(l.Val); !ok || k < legacy {
 					low = append(low, l.String())
 				}
 			default:
-				good = false
-				low = append(low, l.String())
+				allConst = false
+				other = append(other, l.String())
 			}
 		}
 		switch {
-		case !good:
-			c.Bad("C30.R3", cons, w.Pos(site.Pos()), fmt.Sprintf("the floor can come from %v, which is neither DetermineFeeFloor's result nor a constant >= %d: fees below the node's relay floor become possible", low, legacy))
-		case needDetected && !detected:
+		case len(low) > 0:
+			c.Bad("C30.R3", cons, w.Pos(site.Pos()), fmt.Sprintf("the floor can be the constant %v, which is below the legacy floor %d and is not DetermineFeeFloor's result: fees below the node's relay floor become possible", low, legacy))
+		case len(other) > 0 || len(ss.Leaves) == 0:
+			c.Unknown("C30.R3", cons, w.Pos(site.Pos()), fmt.Sprintf("the floor comes from %v, which this rule cannot relate to DetermineFeeFloor or a constant", other))
+		case needDetected && !detected && allConst:
 			c.Bad("C30.R3", cons, w.Pos(site.Pos()), fmt.Sprintf("the floor (%v) does not come from DetermineFeeFloor although this main detects the Bitcoin Core version", ss.Names()))
 		default:
 			c.OK("C30.R3", cons, w.Pos(site.Pos()), fmt.Sprintf("floor sources: %v", ss.Names()))
@@ -1108,9 +1609,10 @@ func c30R3(c *an.Check, legacy int64) {
 	c.AtLeast("C30.R3", "NewBitcoinOnChain call sites", len(chains), 2)
 	gests := findCallSites(w, c30FnNewGEst)
 	c.AtLeast("C30.R3", "NewGBitcoindEstimator call sites", len(gests), 1)
-	usesBitcoind := map[*ssa.Function]bool{}
+	// a main package that builds the bitcoind estimator can detect the version
+	usesBitcoind := map[string]bool{}
 	for _, g := range gests {
-		usesBitcoind[g.Parent()] = true
+		usesBitcoind[w.FnRel(g.Parent())] = true
 	}
 	nDet := 0
 	for _, s := range chains {
@@ -1119,10 +1621,10 @@ func c30R3(c *an.Check, legacy int64) {
 			c.Unknown("C30.R3", w.FuncName(s.Parent())+" NewBitcoinOnChain floor", w.Pos(s.Pos()), "unexpected arity")
 			continue
 		}
-		if usesBitcoind[s.Parent()] {
+		if usesBitcoind[w.FnRel(s.Parent())] {
 			nDet++
 		}
-		check(s, "NewBitcoinOnChain floor", args[2], usesBitcoind[s.Parent()])
+		check(s, "NewBitcoinOnChain floor", args[2], usesBitcoind[w.FnRel(s.Parent())])
 	}
 	for _, s := range gests {
 		args := s.Common().Args
@@ -1181,6 +1683,7 @@ type c30Cmp struct {
 	rel      [2]string // relation `a[i] rel b[i]` on the true / false edge
 	idx      ssa.Value
 	sameIdx  bool
+	shifted  bool
 	describe string
 }
 
@@ -1207,7 +1710,11 @@ func c30R4(c *an.Check, fn *ssa.Function) {
 		side := c30Side(w, fn, cc.Call.Args[0])
 		cons := "CompareVersionStrings Atoi(" + side + ") error"
 		if len(failE) == 0 {
-			c.Bad("C30.R4", cons, w.Pos(call.Pos()), "the Atoi error is not tested: a malformed component silently counts as 0")
+			if errV == nil || errV.Referrers() == nil || len(*errV.Referrers()) == 0 {
+				c.Bad("C30.R4", cons, w.Pos(call.Pos()), "the Atoi error is not tested: a malformed component silently counts as 0")
+			} else {
+				c.Unknown("C30.R4", cons, w.Pos(call.Pos()), "the Atoi error is not compared with nil here but handed on ("+w.Term(errV)+"); the rule does not follow it")
+			}
 			continue
 		}
 		var start []*ssa.BasicBlock
@@ -1215,18 +1722,32 @@ func c30R4(c *an.Check, fn *ssa.Function) {
 			start = append(start, e.To())
 		}
 		reach := an.ReachBlocks(start, nil, nil)
-		good, n := true, 0
+		verdict, n := "ok", 0
 		for _, r := range an.Returns(fn) {
 			if !reach[r.Block()] {
 				continue
 			}
 			n++
-			if !c30ErrFrom(r.Results[1], errV, 0) {
-				good = false
+			switch {
+			case c30ErrFrom(r.Results[1], errV, 0):
+			case an.IsNilConst(r.Results[1]):
+				verdict = "bad"
+			case c30FreshErr(r.Results[1]):
+				// another, certainly non-nil error: the failure is still reported
+			default:
+				if verdict == "ok" {
+					verdict = "unknown"
+				}
 			}
 		}
-		c.Decide(good && n > 0, "C30.R4", cons, w.Pos(call.Pos()), "a malformed component is returned as an error",
-			"after a failed Atoi the function can return without an error that carries the Atoi failure")
+		switch {
+		case verdict == "bad":
+			c.Bad("C30.R4", cons, w.Pos(call.Pos()), "after a failed Atoi the function can return a nil error: a malformed version string is compared as if it were well-formed")
+		case verdict == "unknown" || n == 0:
+			c.Unknown("C30.R4", cons, w.Pos(call.Pos()), "cannot establish that the return after a failed Atoi carries a non-nil error")
+		default:
+			c.OK("C30.R4", cons, w.Pos(call.Pos()), "a malformed component is returned as an error")
+		}
 	}
 	c.AtLeast("C30.R4", "Atoi calls", nAtoi, 2)
 
@@ -1248,6 +1769,11 @@ func c30R4(c *an.Check, fn *ssa.Function) {
 		}
 		sideX, sideY := c30Side(w, fn, sx), c30Side(w, fn, sy)
 		cm := &c30Cmp{i: i, idx: ix, sameIdx: ix == iy}
+		if bx, ox, ok1 := c30Offset(ix); ok1 {
+			if by, oy, ok2 := c30Offset(iy); ok2 && bx == by {
+				cm.sameIdx, cm.shifted = ox == oy, ox != oy
+			}
+		}
 		switch {
 		case sideX == "a" && sideY == "b":
 			cm.rel = [2]string{c30RelOn(bo.Op, true), c30RelOn(bo.Op, false)}
@@ -1264,8 +1790,15 @@ func c30R4(c *an.Check, fn *ssa.Function) {
 		return
 	}
 	for _, cm := range cmps {
-		c.Decide(cm.sameIdx, "C30.R4", "CompareVersionStrings same index "+cm.rel[0], w.Pos(cm.i.Cond.Pos()),
-			"both components are read at the same index", "the components of a and b are compared at different indices")
+		cons := "CompareVersionStrings same index " + cm.rel[0]
+		switch {
+		case cm.sameIdx:
+			c.OK("C30.R4", cons, w.Pos(cm.i.Cond.Pos()), "both components are read at the same index")
+		case cm.shifted:
+			c.Bad("C30.R4", cons, w.Pos(cm.i.Cond.Pos()), "the components of a and b are compared at different indices (same loop variable, different constant offset)")
+		default:
+			c.Unknown("C30.R4", cons, w.Pos(cm.i.Cond.Pos()), "the two components are indexed by different expressions; cannot tell whether the indices are equal")
+		}
 	}
 	header := c30PhiBlock(cmps[0].idx)
 	if header == nil {
@@ -1289,9 +1822,9 @@ func c30R4(c *an.Check, fn *ssa.Function) {
 	implies := func(k map[string]bool, rel string) bool {
 		switch rel {
 		case "<":
-			return k["<"]
+			return k["<"] || (k["!="] && k["<="])
 		case ">":
-			return k[">"]
+			return k[">"] || (k["!="] && k[">="])
 		case ">=":
 			return k[">="] || k[">"] || k["=="]
 		case "<=":
@@ -1334,6 +1867,8 @@ func c30R4(c *an.Check, fn *ssa.Function) {
 		switch {
 		case !isConst:
 			c.Unknown("C30.R4", cons, w.Pos(r.Pos()), "the result is not a boolean constant; only constant results under known component relations are interpreted")
+		case !inside && !val && !an.ReachBlocks([]*ssa.BasicBlock{header}, nil, nil)[rb]:
+			c.Unknown("C30.R4", cons, w.Pos(r.Pos()), "`false` is returned before the component loop; the rule does not interpret the condition it depends on")
 		case !inside:
 			c.Decide(val, "C30.R4", cons, w.Pos(r.Pos()), "all components equal => a >= b is true",
 				"when all components are equal (or the loop ends) the function answers false, but equal versions satisfy a >= b")
@@ -1546,28 +2081,77 @@ func c30R4Pad(c *an.Check, fn *ssa.Function) {
 		}
 		seen[side] = true
 		wantRel := map[string][]string{"a": {"<", "<="}, "b": {">", ">="}}[side]
-		guard := false
+		guard, wrongWay := false, false
 		for _, f := range lfs {
+			if !an.EdgeDominates(f.edge, call.Block()) {
+				continue
+			}
 			for _, wr := range wantRel {
-				if f.rel == wr && an.EdgeDominates(f.edge, call.Block()) {
+				if f.rel == wr {
 					guard = true
 				}
+			}
+			if f.rel == c30Flip(wantRel[0]) {
+				wrongWay = true // strictly the other way round
 			}
 		}
 		switch {
 		case len(consts) != 1 || consts[0] != "0":
 			c.Bad("C30.R4", cons, w.Pos(call.Pos()), fmt.Sprintf("the missing components are filled with %q, not \"0\"", consts))
+		case !guard && wrongWay:
+			c.Bad("C30.R4", cons, w.Pos(call.Pos()), "the side is padded although it is not known to be the shorter one (no dominating comparison of the two lengths in the right direction): it is padded exactly when it is the longer one")
 		case !guard:
-			c.Bad("C30.R4", cons, w.Pos(call.Pos()), "the side is padded although it is not known to be the shorter one (no dominating comparison of the two lengths in the right direction)")
+			c.Unknown("C30.R4", cons, w.Pos(call.Pos()), "no dominating comparison of the two lengths was recognised; cannot tell under which condition this side is padded")
 		default:
 			c.OK("C30.R4", cons, w.Pos(call.Pos()), "missing components are filled with \"0\" when this side is shorter")
 		}
 	}
 	for _, side := range []string{"a", "b"} {
 		if !seen[side] {
-			c.Bad("C30.R4", "CompareVersionStrings padding of "+side, w.Pos(fn.Pos()), "no padding of this side with \"0\": a shorter "+side+" is not treated as having zero components (index out of range or wrong order)")
+			c.Unknown("C30.R4", "CompareVersionStrings padding of "+side, w.Pos(fn.Pos()), "no append of a constant to the components of "+side+" was found in this function: cannot establish that a shorter "+side+" is treated as having zero components")
 		}
 	}
+}
+
+// c30Offset decodes idx as base + constant.
+func c30Offset(idx ssa.Value) (base ssa.Value, off int64, ok bool) {
+	for depth := 0; depth < 4; depth++ {
+		bo, isB := idx.(*ssa.BinOp)
+		if !isB {
+			return idx, off, true
+		}
+		kx, okx := an.ConstInt(bo.X)
+		ky, oky := an.ConstInt(bo.Y)
+		switch {
+		case bo.Op == token.ADD && oky:
+			off, idx = off+ky, bo.X
+		case bo.Op == token.ADD && okx:
+			off, idx = off+kx, bo.Y
+		case bo.Op == token.SUB && oky:
+			off, idx = off-ky, bo.X
+		default:
+			return idx, off, true
+		}
+	}
+	return nil, 0, false
+}
+
+// c30FreshErr: a value that is certainly a non-nil error (a constructor call
+// or a concrete value boxed into the interface).
+func c30FreshErr(v ssa.Value) bool {
+	switch x := v.(type) {
+	case *ssa.MakeInterface:
+		_, isPtr := x.X.Type().Underlying().(*types.Pointer)
+		return !isPtr
+	case *ssa.Call:
+		if f := x.Call.StaticCallee(); f != nil && f.Pkg != nil {
+			switch f.Pkg.Pkg.Path() + "." + f.Name() {
+			case "fmt.Errorf", "errors.New":
+				return true
+			}
+		}
+	}
+	return false
 }
 
 func c30ConstBool(v ssa.Value) (val bool, ok bool) {
@@ -1592,4 +2176,16 @@ func c30PhiBlock(idx ssa.Value) *ssa.BasicBlock {
 		}
 	}
 	return nil
+}
+
+// c30IsAPI: an exported function, or an exported method of an exported type.
+func c30IsAPI(fn *ssa.Function) bool {
+	if fn == nil || fn.Object() == nil || !fn.Object().Exported() || fn.Parent() != nil {
+		return false
+	}
+	if recv := fn.Signature.Recv(); recv != nil {
+		n := an.NamedOf(recv.Type())
+		return n != nil && n.Obj().Exported()
+	}
+	return true
 }
